@@ -6,12 +6,12 @@ from harness import common, gens, recv
 from harness.common import Stream
 
 PID = "C02"
-LEAN_MODULES = ["Astm.Proofs.C02", "Astm.State.C02"]
+LEAN_MODULES = ["Astm.Proofs.C02", "Astm.State.C02", "Astm.Surface.C02"]
 THEOREMS = [
     "Astm.C02.spec_follows", "Astm.C02.step_follows_handshake", "Astm.C02.render_not_invalidState",
     "Astm.C02.trace_follows_handshake", "Astm.C02.state_preserving_units", "Astm.C02.example_history",
     "Astm.step_refines", "Astm.run_refines",
-    "Astm.C02.anchored_code_keeps_no_other_state",
+    "Astm.C02.anchored_code_keeps_no_other_state", "Astm.C02.anchored_code_keeps_its_signatures",
 ]
 RULE = ("unit sequences over {ENQ, EOT, ACK, NAK, valid final frame, valid intermediate frame, corrupted frame, "
         "STX garbage, STX garbage with a verifying checksum, non-control garbage, empty} x formats {astm, lis2a, json, "
